@@ -35,6 +35,10 @@ class Recorder(RingDomain):
     def contract_for(self, I, f, this, args):
         if f.qname.startswith("embedded_pairing_"):
             return None
+        # helpers with internal linkage (anonymous namespace / static free functions of the wrapper file) cannot be library API: they are part
+        # of the wrapper and are executed, not recorded
+        if f.body is not None and (any((x or "") in ("", "(anonymous)", "(anonymous namespace)") for x in (f.ns or [])) or (not f.is_method and f.node.get("storageClass") == "static")):
+            return None
         return self.record
 
     def record(self, I, f, this, args):
